@@ -227,10 +227,12 @@ def get_model(
 
         logger.debug('Found "%s" association.', assoc.name)
 
+        # Use the asset types the association is declared with: the assets
+        # in the model may be subtypes of them.
         assoc_name = lang_classes_factory.get_association_by_signature(
             assoc.name,
-            left_asset.type,
-            right_asset.type
+            assoc.left_field.asset.name,
+            assoc.right_field.asset.name
         )
 
         if not assoc_name:
